@@ -148,6 +148,12 @@ Section Backend.
                        w_mem := w_mem w |})
       end.
 
+  (* template <typename T> T *alignedMalloc(size_t nElements, size_t align = 64)
+       { return (T * )alignedMalloc(nElements * sizeof(T), align); }
+     the typed overload: no overflow guard, the product wraps *)
+  Definition aligned_malloc_typed (w : world) (sizeT nElements align : Z) : am_result * world :=
+    aligned_malloc w (wrap (nElements * sizeT)) align.
+
   (* void alignedFree(void *ptr): forwards; the back ends ignore nullptr.
      None = ptr is not a live block (undefined behaviour in C++). *)
   Definition aligned_free (w : world) (p : Z) : option world :=
@@ -394,3 +400,77 @@ Definition aligned64 (v : vec) : Prop := v_data v = 0 \/ (64 | v_data v).
 (* the growth policy of std::vector never returns less than what is needed *)
 Definition grow_ok (vmax : Z) (grow : Z -> Z -> Z) : Prop :=
   forall s e, 0 <= s -> 0 < e -> s + e <= vmax -> s + e <= grow s e.
+
+(* ------------------------------------------------ element lifetimes (events)
+   aligned_allocator::construct(p, t) is placement copy construction at p and
+   destroy(p) the destructor call at p (tools/c14gen checks exactly that shape,
+   PropertiesGen.v).  A run of events is defined only while every slot is
+   constructed when it is not alive and destroyed when it is alive. *)
+Inductive ev := ECons (a : Z) | EDest (a : Z).
+
+Definition mem_z (a : Z) (l : list Z) : bool := existsb (Z.eqb a) l.
+Definition remove_z (a : Z) (l : list Z) : list Z := filter (fun x => negb (x =? a)) l.
+
+Definition ev_step (alive : list Z) (e : ev) : option (list Z) :=
+  match e with
+  | ECons a => if mem_z a alive then None else Some (a :: alive)
+  | EDest a => if mem_z a alive then Some (remove_z a alive) else None
+  end.
+
+Fixpoint ev_run (alive : list Z) (es : list ev) : option (list Z) :=
+  match es with
+  | [] => Some alive
+  | e :: es' => match ev_step alive e with
+                | Some alive' => ev_run alive' es'
+                | None => None
+                end
+  end.
+
+(* addresses of the elements lo <= i < hi of the array at base *)
+Definition slots (base sizeT lo hi : Z) : list Z :=
+  map (fun i => base + (lo + Z.of_nat i) * sizeT) (seq 0 (Z.to_nat (hi - lo))).
+
+(* what std::vector does to element lifetimes in one operation, read off the
+   vector before and after: a reallocation copy-constructs the kept elements in
+   the new block, then destroys the old ones; in place it constructs the new
+   tail or destroys the removed tail (assign within capacity assigns the common
+   prefix); an exception changes nothing *)
+Definition v_events (sizeT : Z) (o : vop) (v v' : vec) : list ev :=
+  if v_data v' =? v_data v then
+    if v_size v <=? v_size v'
+    then map ECons (slots (v_data v) sizeT (v_size v) (v_size v'))
+    else map EDest (slots (v_data v) sizeT (v_size v') (v_size v))
+  else
+    let kept := match o with VAssign _ _ _ => 0 | _ => v_size v end in
+    map ECons (slots (v_data v') sizeT 0 kept) ++
+    map EDest (slots (v_data v) sizeT 0 (v_size v)) ++
+    map ECons (slots (v_data v') sizeT kept (v_size v')).
+
+Fixpoint count_cons (a : Z) (es : list ev) : nat :=
+  match es with
+  | [] => 0
+  | ECons x :: r => (if x =? a then 1 else 0) + count_cons a r
+  | EDest _ :: r => count_cons a r
+  end.
+Fixpoint count_dest (a : Z) (es : list ev) : nat :=
+  match es with
+  | [] => 0
+  | EDest x :: r => (if x =? a then 1 else 0) + count_dest a r
+  | ECons _ :: r => count_dest a r
+  end.
+Definition b2n (b : bool) : nat := if b then 1 else 0.
+
+(* the event trace of a history on two vectors ([step], [va], [vb]: the instance of vs_step and the
+   projections, so that this definition does not depend on the back end section) *)
+Fixpoint vs_events {st : Type} (step : st -> vop -> st) (va vb : st -> vec) (sizeT : Z)
+    (s : st) (ops : list vop) : list ev :=
+  match ops with
+  | [] => []
+  | o :: r =>
+      let s' := step s o in
+      match vop_target o with
+      | None => []
+      | Some false => v_events sizeT o (va s) (va s')
+      | Some true => v_events sizeT o (vb s) (vb s')
+      end ++ vs_events step va vb sizeT s' r
+  end.
